@@ -200,8 +200,11 @@ func judge(tc *tcase, ob observed) (string, bool) {
 	}
 	lk := expectClass(tc.L)
 	switch tc.Out.Kind {
-	case "exact":
+	case "exact", "exact_or_error":
 		if ob.Err != "" {
+			if tc.Out.Kind == "exact_or_error" {
+				return "", true
+			}
 			return "unexpected-error", false
 		}
 		if len(ob.Res) != len(tc.Out.Res) {
